@@ -19,7 +19,6 @@ import (
 	spb "google.golang.org/genproto/googleapis/rpc/status"
 	"google.golang.org/grpc"
 	"google.golang.org/grpc/codes"
-	"google.golang.org/grpc/credentials/insecure"
 	"google.golang.org/grpc/status"
 	"google.golang.org/protobuf/encoding/protowire"
 	"google.golang.org/protobuf/proto"
@@ -538,13 +537,13 @@ func codecEndToEnd(e *Env, hostile [][]byte, rng *rand.Rand) {
 	}
 	addr := strings.TrimSpace(strings.TrimPrefix(line, "ADDR "))
 	alive := func() bool {
-		conn, err := grpc.Dial(addr, grpc.WithTransportCredentials(insecure.NewCredentials()), grpc.WithBlock(), grpc.WithTimeout(2*time.Second))
+		conn, err := grpc.Dial(addr, append(h.DialOpts(), grpc.WithBlock(), grpc.WithTimeout(2*time.Second))...)
 		if err != nil {
 			return false
 		}
 		conn.Close()
 		// a normal gorums call
-		mgr := puppet.NewManager(gorums.WithDialTimeout(2*time.Second), gorums.WithGrpcDialOptions(grpc.WithTransportCredentials(insecure.NewCredentials()), grpc.WithBlock()))
+		mgr := puppet.NewManager(gorums.WithDialTimeout(2*time.Second), gorums.WithGrpcDialOptions(append(h.DialOpts(), grpc.WithBlock())...))
 		defer func() { go mgr.Close() }()
 		cfg, err := mgr.NewConfiguration(gorums.WithNodeMap(map[string]uint32{addr: 1}), &h.QSpec{})
 		if err != nil {
@@ -562,7 +561,7 @@ func codecEndToEnd(e *Env, hostile [][]byte, rng *rand.Rand) {
 	n := e.Pick(400, 4000)
 	sent := 0
 	last := filepath.Join(os.TempDir(), fmt.Sprintf("c13-e2e-last-%d.bin", os.Getpid()))
-	conn, err := grpc.Dial(addr, grpc.WithTransportCredentials(insecure.NewCredentials()))
+	conn, err := grpc.Dial(addr, h.DialOpts()...)
 	if err != nil {
 		R.Inconc("dial: " + err.Error())
 		return
